@@ -158,6 +158,45 @@ func acyclicBattery(coll age.CollatorLike[any]) string {
 	return d
 }
 
+// shallowBattery: what a collator with a small depth limit must still do -
+// scalars always, and nests of at most half the limit (the statement does not
+// fix where exactly a custom limit bites).
+func shallowBattery(coll age.CollatorLike[any], maximum int) string {
+	var d string
+	func() {
+		defer func() {
+			if e := recover(); e != nil {
+				d = fmt.Sprintf("a collator with maximum %d panics on values nested %d deep afterwards: %s", maximum, maximum/2, trunc(fmt.Sprint(e)))
+			}
+		}()
+		if !coll.CompareValues(int64(7), int64(7)) || coll.CompareValues("a", "b") || coll.RankValues(int64(1), int64(2)) != age.LesserRank {
+			d = "afterwards scalars are compared or ranked wrongly"
+			return
+		}
+		levels := maximum / 2
+		if levels < 1 {
+			return
+		}
+		nest := func(leaf any) any {
+			var v any = []any{leaf}
+			for i := 1; i < levels; i++ {
+				v = []any{int64(i), v}
+			}
+			return v
+		}
+		a, b, x := nest("p"), nest("p"), nest("q")
+		switch {
+		case !coll.CompareValues(a, b):
+			d = "afterwards two equal shallow nests compare unequal"
+		case coll.CompareValues(a, x):
+			d = "afterwards two different shallow nests compare equal"
+		case coll.RankValues(a, x) != age.LesserRank || coll.RankValues(x, a) != age.GreaterRank || coll.RankValues(a, b) != age.EqualRank:
+			d = "afterwards shallow nests are misordered"
+		}
+	}()
+	return d
+}
+
 // CyclicCases: kinds^length for length 1..3 would be 8+64+512; the battery
 // enumerates all rings of length 1 and 2 and a seeded sample of length 3,
 // each with 0, 1 and 3 siblings.
@@ -181,6 +220,21 @@ func RunCyclic(c *core.Ctx, idx int) {
 	v := buildCycle(kinds, sib)
 	w := buildCycle(kinds, sib) // an independent, identically shaped ring
 	coll := age.Collator[any]().Make()
+	custom := 0
+	if idx%4 == 3 {
+		// a collator with a depth limit of the caller's choosing behaves the same way
+		custom = []int{1, 2, 3, 5, 8, 33}[(idx/4)%6]
+		coll = age.Collator[any]().MakeWithMaximum(custom)
+		cs["maximum"] = custom
+		if coll.GetMaximum() != custom {
+			c.Violation("cyclic/maximum-not-kept", fmt.Sprintf("MakeWithMaximum(%d).GetMaximum()=%d", custom, coll.GetMaximum()), cs)
+			return
+		}
+	}
+	battery := acyclicBattery
+	if custom > 0 {
+		battery = func(coll age.CollatorLike[any]) string { return shallowBattery(coll, custom) }
+	}
 	for _, step := range []struct {
 		what string
 		f    func()
@@ -194,7 +248,7 @@ func RunCyclic(c *core.Ctx, idx int) {
 			c.Violation(sig+"/no-depth-panic", d, cs)
 			return
 		}
-		if d := acyclicBattery(coll); d != "" {
+		if d := battery(coll); d != "" {
 			c.Violation(sig+"/collator-broken-afterwards", "after "+step.what+" ended with the depth-limit panic: "+d, cs)
 			return
 		}
